@@ -80,7 +80,8 @@ def check_case(case, stats=None, K=oracle.K_QUICK):
                 continue
         if tm.clobbers:
             c = tm.clobbers[0]
-            raise Violation(oracle.clobber_signature(c) + oracle.clobber_shape_suffix(srcs), {"opts": opts, "env_seed": es, "clobber": c, "code": res["code"]})
+            sig = oracle.clobber_signature(c)
+            raise Violation(sig + oracle.clobber_shape_suffix(srcs, sig), {"opts": opts, "env_seed": es, "clobber": c, "code": res["code"]})
         if stats is not None:
             shared = sum(1 for s in tm.phys_share.values() if len(s) >= 2)
             if len(tm.virtuals) >= 6 and shared >= 1 and (m.calls_executed or m.backjumps):
